@@ -161,6 +161,21 @@ func init() {
 		_, still := batch[0][0].(string)
 		return !still, fmt.Sprintf("BatchEnforce(batch) = %v, %v; the caller's batch[0][0] afterwards is a %T", res, err, batch[0][0])
 	}
+	// D42 (fixed): GetPolicy handed out the stored list, which the batch removal compacts while ranging over it
+	witnesses["D42-listing-handed-back-to-batch-removal"] = func() (bool, string) {
+		e, err := casbin.NewEnforcer(mustModel(rbacText))
+		if err != nil {
+			return false, err.Error()
+		}
+		_, _ = e.AddGroupingPolicies([][]string{{"a", "r1"}, {"b", "r2"}, {"c", "r3"}})
+		_, _ = e.AddPolicies([][]string{{"r1", "d1", "read"}, {"r2", "d2", "read"}})
+		gp, _ := e.GetGroupingPolicy()
+		ok, err := e.RemoveGroupingPolicies(gp)
+		left, _ := e.GetGroupingPolicy()
+		a, _ := e.Enforce("a", "d1", "read")
+		b, _ := e.Enforce("b", "d2", "read")
+		return !ok || err != nil || len(left) != 0 || a || b, fmt.Sprintf("RemoveGroupingPolicies(GetGroupingPolicy()) on [a r1] [b r2] [c r3] = %v, %v; listed afterwards %v; Enforce(a,d1,read)=%v Enforce(b,d2,read)=%v", ok, err, left, a, b)
+	}
 	// D20: the filtered file adapter splits lines at raw commas and skips rules shorter than the filter
 	witnesses["D20-filter-quoted-fields"] = func() (bool, string) {
 		dir, _ := os.MkdirTemp("", "d20")
